@@ -602,6 +602,8 @@ class TcpConn:
             log.v("C17", "repeated-sequence-count", f"connected message #{conn.messages} repeats sequence count {seq} of the previous message", {"seq": seq, "head": item[:24]})
             if conn.last_reply is not None:  # duplicate detection: replay the cached reply, do not execute
                 return self.unit_reply(h, conn, seq, conn.last_reply, {"kind": "unit", "replayed": True})
+        if conn.last_seq is not None and seq < conn.last_seq:
+            log.c("sequence-wraps")
         conn.last_seq = seq
         msg = item[2:]
         if len(item) > conn.size:
